@@ -195,6 +195,13 @@ def c17_worker(res: Result, i: int, n: int) -> None:
     for k in range(i, total, n):
         rng = common.rng_for("C17", k)
         b, cell = tiny_records_batch(rng) if k % 97 == 5 else gen_batch(rng, thorough, 60 if not thorough else 200, null_header_keys=True)
+        if k % 1500 == 7:
+            # a batch beyond 1 MiB: one large value or one large header value
+            if k % 3000 == 7:
+                b["records"][0]["value"] = rng.randbytes((1 << 20) + rng.choice((1, 4096, 1 << 20)))
+            else:
+                b["records"][-1]["headers"] = [*b["records"][-1]["headers"], (b"big", rng.randbytes((1 << 20) + 100))]
+            res.count("batches_beyond_1MiB")
         null_key = any(hk is None for r in b["records"] for hk, _ in r["headers"])
         cells.add((cell["n"], cell["order"], cell["time"]))
         for kv in cell["kv"]:
@@ -593,6 +600,23 @@ def c18_worker(res: Result, i: int, n: int) -> None:
                 res.count("compacted_batches_first_timestamp_delta_nonzero")
             cell = dict(cell, order=cell["order"] + "+compacted")
         work.append((f"generated #{k} {cell['n']}/{cell['order']}/{cell['time']}", recref.encode_batch(b), b))
+    for k in range(i, 6 if res.tier == "quick" else 64, n):
+        # batches beyond 1 MiB (the broker's default message.max.bytes is a limit of a broker, not of the format): one large value, one
+        # large header value, or many mid-size records
+        rng = common.rng_for("C18", "large", k)
+        b, cell = gen_batch(rng, False, 3)
+        shape = k % 3
+        if shape == 0:
+            b["records"][0]["value"] = rng.randbytes(rng.choice((1 << 20, (1 << 21) + 7)))
+        elif shape == 1:
+            b["records"][-1]["headers"] = [(b"big", rng.randbytes((1 << 20) + 100))]
+        else:
+            proto = dict(b["records"][0], value=rng.randbytes(40_000), headers=[])
+            b["records"] = [dict(proto, offset_delta=j, timestamp_delta=0) for j in range(30)]
+            b["last_offset_delta"] = 29
+            b["max_timestamp"] = b["base_timestamp"]
+        res.count("batches_beyond_1MiB")
+        work.append((f"large #{k} shape {shape}", recref.encode_batch(b), b))
     for k in range(i, 24 if res.tier == "quick" else 400, n):
         rng = common.rng_for("C18", "tiny", k)
         b, cell = tiny_records_batch(rng, (49, 50, 51, 64, 100, 128, 300, 1000)[k % 8] if k < 16 else None)
